@@ -199,6 +199,14 @@ func (s *MultiEventSyncer) handlePotentialReorg(ctx context.Context, header *typ
 		}
 		return errors.Wrap(err, "failed to get sync status")
 	}
+	if header.Number.Int64() > status.BlockNumber+1 {
+		// The new head is not the child of the synced block, so its parent hash says nothing
+		// about the synced block. Check the chain's current child of the synced block instead.
+		header, err = s.ExecutionClient.HeaderByNumber(ctx, big.NewInt(status.BlockNumber+1))
+		if err != nil {
+			return errors.Wrap(err, "failed to get the header following the synced block")
+		}
+	}
 	numReorgedBlocks := calculateReorgDepth(status, header, s.AssumedReorgDepth)
 	if numReorgedBlocks == 0 {
 		return nil
